@@ -151,7 +151,7 @@ def poly_jobs(cases, first, quick, seed):
     """SpynePolyCases (class trees, runtime subclass where the base is declared): wrapper documents, polymorphic on / off"""
     jobs = []
     for i, c in enumerate(cases):
-        if i < first or c['id'] in ('P5', 'P6'):          # (P5: classes sharing a type name across namespaces - dict documents cannot tell them apart)
+        if i < first or c['id'] in ('P5', 'P6', 'P8'):          # (P8: XML attributes; P5: classes sharing a type name across namespaces - dict documents cannot tell them apart)
             continue
         n = 0
         for fam in FAMS:
